@@ -4,7 +4,7 @@
    objects - over pointers ranging over three objects that may coincide.  Each theorem: under EVERY
    pointer assignment the final memory is the initial memory with the destination(s) replaced by the
    PURE function of the operand's INITIAL value.  Modf: integ and frac may each be the receiver or nil.
-   Context.Add, Sub, Abs, Neg, Round and setAsNaN (Imp/CtxOps.v, same transliteration discipline: the NaN
+   Context.Add, Sub, Mul, Rem, QuoInteger, Abs, Neg, Round, quoSpecials and setAsNaN (Imp/CtxOps.v, same transliteration discipline: the NaN
    tests, d.Set, the late reads of the operand coefficients through the pointers upscale returns - after
    d.Negative has been written -, the sign fix-ups on d, c.round(d, d) as one read-compute-write on d): under
    EVERY assignment of d, x, y to objects the call returns the Condition of the pure model (Model/Context.v,
@@ -15,7 +15,7 @@
    arithmetic and alias streams and compared with it and with itself; BigInt aliasing is register coincidence
    in C16's method-sequence theorem. *)
 From Coq Require Import ZArith Bool List.
-From Apd Require Import Generated.Consts Model.Base Model.NumDigits Model.Decimal Model.Context Imp.Mem Imp.Ops Imp.AliasProofs Imp.CtxOps Imp.CtxProofs Imp.CtxMulProofs Proofs.Core Proofs.SetExponent.
+From Apd Require Import Generated.Consts Model.Base Model.NumDigits Model.Decimal Model.Context Imp.Mem Imp.Ops Imp.AliasProofs Imp.CtxOps Imp.CtxProofs Imp.CtxMulProofs Imp.CtxRemProofs Imp.CtxQuoIntProofs Proofs.Core Proofs.SetExponent.
 Open Scope Z_scope.
 
 Theorem C05_set d x m : wf_mem m -> mem_eq (snd (run (set_imp d x) m)) (put m d (set_pure (get m x))).
@@ -70,6 +70,21 @@ Theorem C05_context_mul est : est_in_range est -> forall c d x y m, wf_mem m ->
   (forall r0, r = Ok r0 -> mem_eq (snd (run (mul_imp est c d x y) m)) (mem_after m d r)).
 Proof. exact (mul_imp_pure est). Qed.
 Print Assumptions C05_context_mul.
+(* Context.Rem: QuoRem writes the remainder into d.Coeff while a, b may still point into x and y; x.Negative is
+   read after d.Coeff, d.Form and d.Exponent have been written *)
+Theorem C05_context_rem est c d x y m : wf_mem m ->
+  let r := ctx_rem est c (get m x) (get m y) in
+  fst (run (rem_imp est c d x y) m) = outcome_of r /\
+  (forall r0, r = Ok r0 -> mem_eq (snd (run (rem_imp est c d x y) m)) (mem_after m d r)).
+Proof. exact (rem_imp_pure est c d x y m). Qed.
+Print Assumptions C05_context_rem.
+(* Context.QuoInteger with quoSpecials (NaNs, infinities, zero divisor, zero precision) *)
+Theorem C05_context_quo_integer est c d x y m : wf_mem m ->
+  let r := ctx_quo_integer est c (get m x) (get m y) in
+  fst (run (quo_integer_imp est c d x y) m) = outcome_of r /\
+  (forall r0, r = Ok r0 -> mem_eq (snd (run (quo_integer_imp est c d x y) m)) (mem_after m d r)).
+Proof. exact (quo_integer_imp_pure est c d x y m). Qed.
+Print Assumptions C05_context_quo_integer.
 (* setAsNaN, used by every Context method: d may be the (signaling) NaN operand itself *)
 Theorem C05_set_as_nan c d x y m : wf_mem m ->
   should_set_as_nan (get m x) (option_map (get m) y) = true ->
